@@ -67,7 +67,10 @@ def apply_case(case, tmp):
         p = case["patch"]
         if not os.path.isabs(p):
             p = os.path.join(VERIF, p)
-        r = subprocess.run(["patch", "-s", "-p1", "-i", p], cwd=tmp, capture_output=True, text=True)
+        cmd = ["patch", "-s", "-p1", "-i", p]
+        if case.get("reverse"):
+            cmd.insert(1, "-R")
+        r = subprocess.run(cmd, cwd=tmp, capture_output=True, text=True)
         return None if r.returncode == 0 else "patch does not apply: " + (r.stdout + r.stderr)[:200]
     path = os.path.join(tmp, case["file"])
     s = open(path).read()
